@@ -4,10 +4,10 @@ import sweeps, hidrun, diffrun, C02
 from sweeps import ALL, WS, program_units, halts_extra
 from diffrun import Cfg
 
-PROPS_VO = ['Props/C08.vo']
+PROPS_VO = ['Props/C08.vo', 'Props/C08_restore.vo']
 GEN_ITEMS = ['coq/Gen/GenLayout.v', 'coq/Gen/GenStdlib.v']
 LEVEL = 'proof'
-TRUSTED = ['PARTIAL: proved = machine lemmas for the restore idioms (fp rebasing around calls is the identity modulo 2^(8w); stop-handler entry restores fp and ap; library routines leave ap/fp and caller memory alone) '
+TRUSTED = ['PARTIAL: proved = machine lemmas for the restore idioms (C08_restore.v: fp rebasing around calls is the identity; call_idiom: given the callee specification the caller gets fp/ap and its frame and arrays back; return sequences; any sequence of array allocations followed by the dynamic (origin slot) or static (sub) reset restores ap exactly; stop-handler entry restores fp and ap; library routines leave ap/fp and caller memory alone) '
            'and array_size arithmetic; "what must be released" is defined by the reference semantics\' allocation stack; that the generator emits the right restore at every exit route is covered by the allocation monitor sweep',
            'allocation monitor: at every committed output byte, [ap] - stack_start on the verified VM must equal the byte size of the arrays the reference semantics has live']
 ASSUMPTIONS = ['temporaries (array literals used as call arguments / lookup sources) die when their call or lookup completes, as the property says for calls']
